@@ -149,7 +149,7 @@ end
 -- primaries DIFFER (X's primary is the tunnel it initiated, Y's the one it initiated): exactly the
 -- situation shouldSwapPrimary resolves, and only side X (address 1 < 2) may swap.
 def race : List Step :=
-  [.start true, .start false, .deliver false 0, .deliver true 0, .deliver true 1, .deliver false 1]
+  [.start true 1 2, .start false 3 4, .deliver false 0 5, .deliver true 0 6, .deliver true 1 0, .deliver false 1 0]
 
 example : ((St.init 1 2).run race).x.tunnels.length = 2 ∧ ((St.init 1 2).run race).y.tunnels.length = 2 := by decide
 example : (((St.init 1 2).run race).x.tunnels.head?.map Tun.mirror) ≠ ((St.init 1 2).run race).y.tunnels.head? := by decide
